@@ -210,6 +210,18 @@ def check_one(mtj, system, order=None):
         if again != seq or list(terms) != list(terms):
             bad('one-shot-result', 'the returned transition sequence reads %r the first time and %r the second time' % (seq[:6], again[:6]),
                 '%s: the emitted sequence can only be read once (words and tags file written from the same result differ)' % system)
+        # the result is a value: the caller goes on working with the tree (here: every constituent is relabelled in
+        # place), the sequence obtained before must still read the same
+        stack = [t]
+        while stack:
+            x = stack.pop()
+            if x.children:
+                x.data['label'] = 'ZZ+' + str(x.data.get('label'))
+                stack.extend(x.children)
+        later = [str(x) for x in trans]
+        if later != seq:
+            bad('result-follows-tree', 'the sequence obtained before the tree was relabelled in place reads %r afterwards (was %r)'
+                % (later[:6], seq[:6]), '%s: the emitted sequence changes when the tree is changed afterwards' % system)
     except Exception as e:
         bad('exception', '%s: %s' % (type(e).__name__, e))
         return out
@@ -323,6 +335,26 @@ def check_cli(system, shapes_n):
     mts = all_mts
     if mixed_src:
         os.unlink(mixed_src)
+    # destination encodings: the same run written as utf-8, utf-16 and utf-8-sig must decode to the same text
+    texts = {}
+    for denc in ('utf-8', 'utf-16', 'iso-8859-1'):
+        dest = os.path.join(scratch(), 'c10.%s.%s.trans' % (system, denc))
+        st, so, se, exc = cli.run(['transitions', gzsrc, dest, system, '--transform', 'negra_mark_heads', '--src-enc', 'iso-8859-1',
+                                   '--dest-enc', denc])
+        if st != 0:
+            bad('cli-failed', '--dest-enc %s: exit status %r %s' % (denc, st, cli.describe(exc)))
+            continue
+        try:
+            texts[denc] = codecs.read_out(dest, denc)
+        except codecs.DecodeError as e:
+            bad('output-encoding', str(e))
+        os.unlink(dest)
+    for denc, text in texts.items():
+        if text != texts.get('utf-8', text):
+            lines_a, lines_b = texts['utf-8'].split('\n'), text.split('\n')
+            k = next((i for i, (a, b) in enumerate(zip(lines_a, lines_b)) if a != b), min(len(lines_a), len(lines_b)))
+            bad('output-encoding', 'written with --dest-enc %s the file decodes to other text than with utf-8: line %d is %r, not %r'
+                % (denc, k + 1, lines_b[k][:60] if k < len(lines_b) else None, lines_a[k][:60] if k < len(lines_a) else None))
     # size probes beyond the bound: files of 999, 1000 and 1001 sentences (one line per tree, in file order)
     for total in (999, 1000, 1001):
         big = [model.MT(i + 1, mts[i % len(mts)].toks, mts[i % len(mts)].root) for i in range(total)]
